@@ -106,9 +106,20 @@ class Program:
     def _scan_file(self, path):
         src = open(path, encoding="utf-8", errors="replace").read()
         src = re.sub(r"//[^\n]*", "", src)
+        stem = os.path.splitext(os.path.basename(path))[0]
+        if stem in ("mod", "lib", "main"):
+            stem = os.path.basename(os.path.dirname(path))
+        inline = []     # (start, end, name) of inline `mod name { ... }`
+        for mm in re.finditer(r"\bmod\s+(\w+)\s*\{", src):
+            try:
+                inline.append((mm.end() - 1, find_matching(src, mm.end() - 1), mm.group(1)))
+            except Exception:
+                pass
         for m in re.finditer(r"\benum\s+(\w+)\s*(?:<[^{]*>)?\s*(?:where[^{]*)?\{", src):
             name = m.group(1)
             start = m.end() - 1
+            enclosing = [x for x in inline if x[0] < start < x[1]]
+            parent = max(enclosing, key=lambda x: x[0])[2] if enclosing else stem
             try:
                 end = find_matching(src, start)
             except Exception:
@@ -126,9 +137,18 @@ class Program:
                     idx = int(em.group(1))
                 variants[vm.group(1)] = idx
                 idx += 1
-            if name in self.enums and self.enums[name] != variants and name not in STD_ENUMS:
+            if name in STD_ENUMS:
+                continue
+            q = parent + "__" + name
+            if q in self.enums and self.enums[q] != variants:
+                self.enum_ambiguous.add(q)
+            else:
+                self.enums[q] = variants
+            if name in self.enums and self.enums[name] != variants:
                 self.enum_ambiguous.add(name)
-            elif name not in STD_ENUMS:
+                from . import values as _values
+                _values.set_ambiguous_names(set(_values.AMBIGUOUS_NAMES) | {name})
+            else:
                 self.enums[name] = variants
 
     def macro_group_self(self, f):
@@ -512,6 +532,8 @@ class Interp:
         plain = [x for x in segs if not x.startswith("<")]
         if len(plain) >= 2:
             en = re.sub(r"<.*$", "", plain[-2])
+            if en in self.prog.enum_ambiguous and len(plain) >= 3:
+                en = plain[-3] + "__" + en
             if en in self.prog.enums and plain[-1] in self.prog.enums[en] and en not in self.prog.enum_ambiguous:
                 idx = self.prog.enums[en][plain[-1]]
                 v = EnumV(norm_ty(want_ty) if want_ty else en, idx, {idx: []})
@@ -789,11 +811,20 @@ class Interp:
                     fields.append(self.eval_operand(path, fid, func, part[k + 2:]))
             return StructV(cty, fields)
         # Path(args) | Path { f: v } | Path
-        m = re.match(r"^([^({]+?)\s*(\(|\{|$)", s)
-        if not m:
+        # the path ends at the first `(` / `{` outside generic brackets (`Result::<(A, B), E>::Ok(x)`)
+        depth, cut = 0, len(s)
+        for i, ch in enumerate(s):
+            if ch == "<":
+                depth += 1
+            elif ch == ">" and not (i > 0 and s[i - 1] in "-="):
+                depth -= 1
+            elif ch in "({" and depth == 0:
+                cut = i
+                break
+        pathname = s[:cut].strip()
+        if not pathname:
             raise Refuse("rvalue %r" % s)
-        pathname = m.group(1).strip()
-        rest = s[len(m.group(1)):].strip()
+        rest = s[cut:].strip()
         args = []
         if rest.startswith("("):
             inner = rest[1:find_matching(rest, 0)]
@@ -808,10 +839,21 @@ class Interp:
         dty = norm_ty(dest_ty)
         if len(segs) >= 2:
             en = re.sub(r"<.*$", "", segs[-2])
+            if en in self.prog.enum_ambiguous and len(segs) >= 3:
+                en = segs[-3] + "__" + en
             if en in self.prog.enums and segs[-1] in self.prog.enums[en]:
                 if en in self.prog.enum_ambiguous:
                     raise Refuse("enum name %s is ambiguous" % en)
                 idx = self.prog.enums[en][segs[-1]]
+                return EnumV(dty, idx, {idx: args})
+        if len(segs) == 1:
+            # bare variant name (rustc trims the path when the variant name is unique): the destination type names
+            # the enum
+            m2 = re.match(r"^(\w+)", dty)
+            en = m2.group(1) if m2 else None
+            if en in self.prog.enums and en not in self.prog.enum_ambiguous and en not in STD_ENUMS \
+                    and segs[0] in self.prog.enums[en]:
+                idx = self.prog.enums[en][segs[0]]
                 return EnumV(dty, idx, {idx: args})
         return StructV(dty, args)
 
@@ -895,6 +937,14 @@ class Interp:
             c2 = [f for f in cands if types_match(f.ret, ret_ty)]
             if c2:
                 cands = c2
+        if len(cands) > 1:
+            # macro-generated closures share one source span: the body belonging to the innermost function on the
+            # call stack that has closures of this type is the one that was created there
+            for fn_name in reversed(getattr(self, "fn_stack", [])):
+                c2 = [f for f in cands if f.name.startswith(fn_name + "::{closure#")]
+                if c2:
+                    cands = c2
+                    break
         if len(cands) != 1:
             raise Refuse("closure %s: %d candidate bodies" % (cty, len(cands)))
         return cands[0]
@@ -906,6 +956,9 @@ class Interp:
         self.depth += 1
         if self.depth > 60:
             raise Refuse("call depth > 60 (recursion?)")
+        if not hasattr(self, "fn_stack"):
+            self.fn_stack = []
+        self.fn_stack.append(f.name)
         try:
             fid = path.nfid
             path.nfid += 1
@@ -921,6 +974,7 @@ class Interp:
             return outs
         finally:
             self.depth -= 1
+            self.fn_stack.pop()
 
     def _run_block(self, f, fid, path, bbname, work, outs):
         key = (fid, bbname)
@@ -1067,6 +1121,17 @@ class Interp:
             return [Outcome(path, "ret", r)]
         return r
 
+    def call_named(self, path, name, args, dest_ty):
+        """call a function by its printed path (used by library models that forward to another impl)."""
+        kind, target = self.resolve(name, args, dest_ty)
+        if kind == "mir":
+            return self.call_function(target, list(args), path)
+        if kind == "model":
+            self.stats["model_calls"][name] = self.stats["model_calls"].get(name, 0) + 1
+            r = target(self, path, list(args), norm_ty(dest_ty) if dest_ty else None, name)
+            return [Outcome(path, "ret", r)] if isinstance(r, V) else r
+        raise Refuse("call_named %s: %s" % (name, kind))
+
     def call_value(self, path, fv, args, dest_ty):
         """call a function VALUE (closure struct, fn item, tuple-struct constructor)."""
         if fv.kind == "ref":
@@ -1130,6 +1195,8 @@ class Interp:
 
     def _variant_discr(self, enum_ty, index):
         name = re.match(r"^&?(\w+)", norm_ty(enum_ty)).group(1)
+        if name in self.prog.enum_ambiguous:
+            raise Refuse("enum name %s is ambiguous across modules" % name)
         tab = self.prog.enums.get(name)
         if tab is None:
             raise Refuse("unknown enum %s" % name)
